@@ -273,6 +273,47 @@ func (c *Ctx) PART(rule string) []report.Obligation {
 				if app == nil {
 					continue
 				}
+				// the names are also complete when they are read from ServiceNames() of the project
+				if sl, ok := app.Call.Args[1].(*ssa.Slice); ok {
+					if al, ok := sl.X.(*ssa.Alloc); ok {
+						for _, r := range *al.Referrers() {
+							ia, ok := r.(*ssa.IndexAddr)
+							if !ok {
+								continue
+							}
+							for _, rr := range *ia.Referrers() {
+								st, ok := rr.(*ssa.Store)
+								if !ok {
+									continue
+								}
+								ld, ok := st.Val.(*ssa.UnOp)
+								if !ok {
+									continue
+								}
+								src, ok := ld.X.(*ssa.IndexAddr)
+								if !ok {
+									continue
+								}
+								if call, ok := src.X.(*ssa.Call); ok && c.calleeID(&call.Call) == "types.(*Project).ServiceNames" {
+									notSel := factHolds(app.Block(), func(cond ssa.Value, val bool) bool {
+										switch x := cond.(type) {
+										case *ssa.Extract:
+											lk, ok := x.Tuple.(*ssa.Lookup)
+											return ok && x.Index == 1 && !val && lk.Index == ssa.Value(ld)
+										case *ssa.Call:
+											cal := x.Call.StaticCallee()
+											return cal != nil && c.P.RefName(cal) == "Has" && !val && len(x.Call.Args) == 2 && x.Call.Args[1] == ssa.Value(ld)
+										}
+										return false
+									})
+									if notSel {
+										good = true
+									}
+								}
+							}
+						}
+					}
+				}
 				for _, l := range findMapLoops(f) {
 					if loadedField(l.rng.X) != "Services" || !l.region[app.Block()] {
 						continue
